@@ -13,12 +13,20 @@ From OsmtV.Print Require Import Gen_Tokens Reader ReaderProofs LexLemmas Quote Q
 Import ListNotations.
 Open Scope string_scope.
 
-(* --- which variant the working tree is: the pinned commit plus the repairs applied so far (Quote.current).  Breaks, as
-       intended, when a further repair is applied: update Quote.current (one flag per repair); the theorems about
-       [pinned] describe the pinned commit and stay true, the ones about [repaired] describe the tree with all repairs --- *)
-Theorem model_is_current_code : faithful = current.
-Proof. reflexivity. Qed.
-Print Assumptions model_is_current_code.
+(* --- which variant the working tree is.  The Boolean fields of [faithful] are regenerated site by site from the source
+       (translate/smt2tokens.py recognises the pinned and the repaired form of every site and nothing else); its table is the
+       pinned one or the one of the repair series (proposed_fixes/C17_series/01_protect_name).  The theorems about [pinned]
+       describe the pinned commit, the ones about [repaired] the tree with every repair; in between the check follows
+       [faithful]. --- *)
+Theorem model_table_is_known : v_table faithful = pinned_tokenNames \/ v_table faithful = series_tokenNames.
+Proof. first [left; reflexivity | right; reflexivity]. Qed.
+Print Assumptions model_table_is_known.
+
+(* with the series applied nothing is missing from the table: [repaired] and the tree agree on it *)
+Theorem series_table_complete :
+  filter (fun w => negb (mem_str w series_tokenNames)) (std_reserved ++ gen_lexer_reserved) = [].
+Proof. vm_compute. reflexivity. Qed.
+Print Assumptions series_table_complete.
 
 (* --- the reader accepts exactly the reference spelling of every legal name --- *)
 Theorem quote_symbol_roundtrip : forall cfg s, cfg_ok cfg -> legal_symbol s ->
